@@ -724,6 +724,93 @@ theorem writeSkip_keeps : ∀ (h : List (String × Snap P)) (f : File P) (k : St
         simp [File.write, hk] at hw
       rw [get_write_other f f1 k1 k s1 hw hne]; exact hk
 
+/-! #### writes, deletes and re-writes in any order: the file refines a plain partial map from address to statepoint -/
+
+/-- the intended meaning of one operation on the map address ↦ statepoint -/
+def specStep (m : String → Option (Snap P)) : FOp P → String → Option (Snap P)
+  | .write k s => fun k' => if k' = k then (match m k with
+      | some x => some x
+      | none => some s) else m k'
+  | .delete k => fun k' => if k' = k then none else m k'
+
+def specRun (m : String → Option (Snap P)) (ops : List (FOp P)) : String → Option (Snap P) := ops.foldl specStep m
+
+private theorem get_filter_ne (k : String) : ∀ (f : File P) (k' : String),
+    File.get (f.filter (fun p => p.1 ≠ k)) k' = if k' = k then none else File.get f k'
+  | [], k' => by simp [File.get]
+  | (a, s) :: r, k' => by
+    by_cases ha : a = k
+    · subst ha
+      simp only [ne_eq, not_true_eq_false, decide_false, Bool.false_eq_true, not_false_eq_true, List.filter_cons_of_neg]
+      rw [get_filter_ne a r k']
+      by_cases hk : k' = a
+      · simp [hk]
+      · have : ¬ a = k' := fun e => hk e.symm
+        simp [hk, File.get, this]
+    · have hd : decide (a ≠ k) = true := by simpa using ha
+      simp only [List.filter_cons, hd, if_true, File.get]
+      by_cases hak : a = k'
+      · subst hak
+        simp [ha]
+      · simp only [hak, if_false]
+        exact get_filter_ne k r k'
+
+private theorem step_get (f : File P) (op : FOp P) (k' : String) : (f.step op).get k' = specStep f.get op k' := by
+  cases op with
+  | write k s =>
+    simp only [File.step, specStep]
+    cases hw : f.write k s with
+    | none =>
+      simp only [Option.getD_none]
+      have hocc : ∃ x, f.get k = some x := by
+        cases hg : f.get k with
+        | none => simp [File.write, hg] at hw
+        | some x => exact ⟨x, rfl⟩
+      obtain ⟨x, hx⟩ := hocc
+      by_cases hk : k' = k
+      · subst hk; simp [hx]
+      · simp [hk]
+    | some f1 =>
+      simp only [Option.getD_some]
+      have hfree : f.get k = none := by
+        cases hg : f.get k with
+        | none => rfl
+        | some x => simp [File.write, hg] at hw
+      by_cases hk : k' = k
+      · subst hk; simp [hfree, get_write_same f f1 _ s hw]
+      · simp [hk, get_write_other f f1 k k' s hw hk]
+  | delete k =>
+    simp only [File.step, specStep, File.delete]
+    cases hg : f.get k with
+    | none =>
+      simp only [Option.getD_none]
+      by_cases hk : k' = k
+      · subst hk; simp [hg]
+      · simp [hk]
+    | some x =>
+      simp only [Option.getD_some]
+      exact get_filter_ne k f k'
+
+/-- **C04-c: any interleaving of writes, deletes and re-writes on one file behaves as the plain map does**: what an
+address loads to afterwards is the statepoint of the first accepted write to it since its last delete — whatever
+was written, deleted or re-written at OTHER addresses, including addresses that share cycle and node and differ only by
+their label (`c00n00`, `c00n00-shuffled` are different group names). Nothing in this depends on which `Database`
+object does the reading: the file is the only state. -/
+theorem run_refines_spec (ops : List (FOp P)) : ∀ (f : File P) (k : String), (f.run ops).get k = specRun f.get ops k := by
+  induction ops with
+  | nil => intro f k; rfl
+  | cons op r ih =>
+    intro f k
+    have hfun : (f.step op).get = specStep f.get op := funext (step_get f op)
+    simp only [File.run, specRun, List.foldl_cons] at ih ⊢
+    rw [ih (f.step op) k, hfun]
+
+/-- an address deleted and written again holds the NEW statepoint; its label-neighbour is untouched -/
+example (a b c : Snap P) : specRun (fun _ => none) [.write "c00n00" a, .write "c00n00-x" b, .delete "c00n00", .write "c00n00" c] "c00n00"
+    = some c := by simp [specRun, specStep]
+example (a b c : Snap P) : specRun (fun _ => none) [.write "c00n00" a, .write "c00n00-x" b, .delete "c00n00", .write "c00n00" c] "c00n00-x"
+    = some b := by simp [specRun, specStep]
+
 /-- `Database.writeToDB` of tree `t` (children sorted by `_createLayout`) with its layout-borne extras and parameters -/
 def saveSP (f : File P) (name : String) (t : Tree) (ex : List Extra) (p : P) : Option (File P) :=
   f.write name ⟨saveRows lt t, ex, p⟩
